@@ -170,6 +170,7 @@ func main() {
 	}
 
 	gridIngest(e.add)
+	pairsIngest(e.add)
 	gridSub(e.add, o.Thorough())
 	gridCli(e.add)
 
@@ -181,6 +182,15 @@ func main() {
 	g := &gen{r: r.Fork()}
 	for i := 0; i < 800*scale; i++ {
 		e.add(g.randomIngest())
+	}
+	g = &gen{r: r.Fork()}
+	for i := 0; i < 500*scale; i++ {
+		e.add(g.lookalikeIngest())
+	}
+	g = &gen{r: r.Fork()}
+	for i := 0; i < 150*scale; i++ {
+		e.add(Case{Family: "recv-lookalike", Kind: "recv", QT: []string{"once", "poll", "stream"}[g.r.Intn(3)], Ops: g.lookalikeResps()})
+		e.add(Case{Family: "cli-lookalike", Kind: "cli", DT: []string{"group", "single"}[g.r.Intn(2)], QT: []string{"once", "stream"}[g.r.Intn(2)], TS: g.r.Chance(1, 3), Ops: g.lookalikeResps()})
 	}
 	g = &gen{r: r.Fork()}
 	for i := 0; i < 150*scale; i++ {
